@@ -45,6 +45,8 @@ class Tr:
             return [{"op": "lclone", "obj": h, "as": g}]
         if op in ("ldrop", "lvdrop"):
             return [{"op": "drop", "obj": h}]
+        if op in ("ldrop_unwinding", "lvdrop_unwinding"):
+            return [{"op": "drop", "obj": h, "unwinding": True}]
         if op == "direct":
             return [{"op": "observe" if hist else "inc_by", "obj": "m", "v": v}]
         if op == "lvinc":
@@ -112,7 +114,7 @@ def alive_after(events):
             alive.append(e["h"])
         if e["op"] == "lclone":
             alive.append(e["g"])
-        if e["op"] == "ldrop":
+        if e["op"] in ("ldrop", "ldrop_unwinding"):
             alive.remove(e["h"])
     return alive
 
